@@ -16,7 +16,7 @@ func init() {
 		"non-trivial = differs from base; distinct = (source hash, document)"
 }
 
-var c02Devs = []string{"INLINE_STRUCT_NO_DEFAULTS", "NULL_OBJECT_VALIDATES_ZERO", "LEN_BYTES", "ADDL_INT_VIA_FLOAT64", "INLINE_STRUCT_NO_ADDITIONAL", "SIZED_INT_ENUM_REJECTS_ALL", "FORMAT_DEF_NO_METHODS", "NULL_TO_ADDL_STRUCT_ERRORS", "TIME_FRACTION_DROPPED", "UNTYPED_ADDL_DROPPED", "ENUM_WRAPPER_MAPVAL_MARSHAL", "ANYOF_MERGED_FIELD_TYPES", "ADDL_NONPRIMITIVE_RAW", "DEFAULT_ENUM_NULL_REJECTED"}
+var c02Devs = []string{"REQUIRED_UNDECLARED_IGNORED", "INLINE_STRUCT_NO_DEFAULTS", "NULL_OBJECT_VALIDATES_ZERO", "LEN_BYTES", "ADDL_INT_VIA_FLOAT64", "INLINE_STRUCT_NO_ADDITIONAL", "SIZED_INT_ENUM_REJECTS_ALL", "FORMAT_DEF_NO_METHODS", "NULL_TO_ADDL_STRUCT_ERRORS", "TIME_FRACTION_DROPPED", "UNTYPED_ADDL_DROPPED", "ENUM_WRAPPER_MAPVAL_MARSHAL", "ANYOF_MERGED_FIELD_TYPES", "ADDL_NONPRIMITIVE_RAW", "DEFAULT_ENUM_NULL_REJECTED"}
 
 func c02(ctx *Ctx) {
 	var cases []SCase
